@@ -19,6 +19,26 @@ Theorem C05_tbq_put_raise_is_invalid_nmea : forall uni st s e,
 Proof. exact tbq_put_raise_is_invalid_nmea. Qed.
 Print Assumptions C05_tbq_put_raise_is_invalid_nmea.
 
+(* in the form the reader-level half of C05 composes with: what leaves put_sentence is within the except-tuple of both
+   reader loops (pyais/stream.py _assemble_messages, pyais/queue.py put_line) *)
+Theorem C05_tbq_put_raises_only_reader_set : forall uni st s e,
+  tbq_put uni st s = Raise e ->
+  e = Lib InvalidNMEAMessageException \/ e = Lib NonPrintableCharacterException \/ e = Lib UnknownMessageException.
+Proof. exact tbq_put_raises_only_reader_set. Qed.
+Print Assumptions C05_tbq_put_raises_only_reader_set.
+
+(* put_sentence raises only from tb.init(), i.e. before `groups` is touched; the caller sees the old state *)
+Theorem C05_tbq_put_raise_only_from_init : forall uni st s e,
+  tbq_put uni st s = Raise e ->
+  exists raw, c_tag_block (sentence_common s) = Some raw /\ tb_init uni raw = Raise e.
+Proof. exact tbq_put_raise_only_from_init. Qed.
+Print Assumptions C05_tbq_put_raise_only_from_init.
+
+Theorem C05_tbq_step_raise_keeps_state : forall uni st s e,
+  tbq_put uni st s = Raise e -> tbq_step uni st s = (st, []).
+Proof. exact tbq_step_raise_keeps_state. Qed.
+Print Assumptions C05_tbq_step_raise_keeps_state.
+
 Theorem C05_tb_init_raises_only_lib : forall uni raw e, tb_init uni raw = Raise e -> e = Lib InvalidNMEAMessageException.
 Proof. exact tb_init_raises_only_lib. Qed.
 Print Assumptions C05_tb_init_raises_only_lib.
